@@ -318,6 +318,9 @@ def check_property(pid, tier, seed):
 
 def replay_file(path):
     body = json.load(open(path))
+    if body.get('engine') == 'sched-smt':
+        from harness import C20
+        return C20.replay_file(body)
     r = native(body['module'], body['harness'], body['split'], body['args'], timeout=120)
     log(json.dumps(r, indent=1, default=repr))
     fails = (r.get('ok') is False) or r.get('hang') or r.get('crash') or (r.get('ok') is None and r.get('exc'))
@@ -336,6 +339,9 @@ def main(argv):
     if '--tier' in argv:
         tier = argv[argv.index('--tier') + 1]
     seed = int(os.environ.get('VERIF_SEED', '0') or 0)
+    if pid == 'C20':
+        from harness import C20
+        return C20.main(tier, seed)
     return check_property(pid, tier, seed)
 
 
